@@ -12,7 +12,7 @@ package hkdf
 //@ pred rem(f) = len(f.buf) + (256 - cnt(f)) * f.size
 
 // Representation invariant of a reader.
-//@ pred rinv(f) = f.expander != nil && f.size == spec.hsize(f.expander) && len(f.buf) <= f.size && implies(f.counter == 1, len(f.buf) == 0) && implies(f.counter != 1, len(f.prev) == f.size && sameobj(f.buf, f.prev) && off(f.buf) + len(f.buf) == off(f.prev) + f.size)
+//@ pred rinv(f) = f.expander != nil && implies(f.counter == 1, ghost(f.expander, hlen) == 0 && len(f.prev) == 0) && f.size == spec.hsize(f.expander) && len(f.buf) <= f.size && implies(f.counter == 1, len(f.buf) == 0) && implies(f.counter != 1, len(f.prev) == f.size && sameobj(f.buf, f.prev) && off(f.buf) + len(f.buf) == off(f.prev) + f.size)
 
 //@ func (*hkdfReader).Read
 //@ reindex
@@ -28,6 +28,15 @@ package hkdf
 //@ modifies f.buf
 //@ modifies p[0:len(p)]
 //@ modifies f.prev[0:f.size]
+//@ modifies ghost(f.expander, hlen)
+//@ modifies ghost(f.expander, hbuf)
+// RFC 5869 section 2.3: the bytes fed to the HMAC for block number N are T(N-1) | info | N
+// (T(0) empty), with the HMAC reset for every block after the first
+//@ check_at "f.prev = f.expander.Sum(f.prev[:0])" ghost(f.expander, hlen) == len(f.prev) + len(f.info) + 1
+//@ check_at "f.prev = f.expander.Sum(f.prev[:0])" forall(q, 0, len(f.prev), ghost(f.expander, hbuf)[q] == f.prev[q])
+//@ check_at "f.prev = f.expander.Sum(f.prev[:0])" forall(q, len(f.prev), len(f.prev) + len(f.info), ghost(f.expander, hbuf)[q] == f.info[q - len(f.prev)])
+//@ check_at "f.prev = f.expander.Sum(f.prev[:0])" ghost(f.expander, hbuf)[len(f.prev) + len(f.info)] == f.counter
+//@ check_at "f.prev = f.expander.Sum(f.prev[:0])" implies(f.counter == 1, len(f.prev) == 0) && implies(f.counter != 1, len(f.prev) == f.size)
 // a Read that would exceed the limit fails without consuming output
 //@ ensures iff(result1 != nil, old(rem(f)) < len(p))
 //@ ensures implies(result1 != nil, result0 == 0 && f.counter == old(f.counter) && f.buf == old(f.buf) && f.prev == old(f.prev))
@@ -43,7 +52,7 @@ package hkdf
 //@ loop 1 invariant 0 <= n && n <= len(f.buf) && implies(len(p) > 0, n == len(f.buf))
 //@ loop 1 invariant len(f.buf) - n + (256 - cnt(f)) * f.size == before(rem(f)) - (len(entry(p)) - len(p))
 //@ loop 1 invariant f.size == spec.hsize(f.expander) && f.expander != nil && len(f.buf) <= f.size
-//@ loop 1 invariant implies(f.counter == 1, len(f.buf) == 0)
+//@ loop 1 invariant implies(f.counter == 1, len(f.buf) == 0 && len(f.prev) == 0 && ghost(f.expander, hlen) == 0)
 //@ loop 1 invariant implies(f.counter != 1, len(f.prev) == f.size && sameobj(f.buf, f.prev) && off(f.buf) + len(f.buf) == off(f.prev) + f.size)
 //@ loop 1 invariant ref(p) != ref(f.prev)
 //@ loop 1 invariant sameoutside(entry(p)) && sameoutside(before(f.prev)[0:f.size]) && onlyobjs(entry(p), before(f.prev))
